@@ -23,7 +23,7 @@ def _indent(string_, spaces):
 
 def _to_literal(value):
     try:
-        return '{}{}'.format(value, int(value, 0) > 0 and 'u' or '')
+        return '{}{}'.format(value.strip(), int(value, 0) > 0 and 'u' or '')
     except ValueError:
         return value
 
